@@ -115,3 +115,41 @@ Example C09_save_load_twice_partial_nonvacuous :
   exists e1, save_load sample_check sample_store sample = Ok e1
              /\ save_load sample_check sample_store e1 = Ok e1 /\ mangle e1 = mangle sample.
 Proof. exists sample. repeat split; vm_compute; reflexivity. Qed.
+
+(* ---------------------------------------------------------------- histories: an extension object that was
+   already encoded or written, or that came out of a file, is edited in place and written again.  The state
+   [s] is arbitrary, in particular its cache of encoded bytes [h_raw s]. *)
+
+Theorem C09_history_step_partial :
+  forall (check_valid : jv -> res unit) (store : str -> option str),
+    (forall b, store b = Some b) ->
+    forall s : hstate, wf (h_obj s) -> check_valid (h_obj s) = Ok tt ->
+      exists s1 s2,
+        hstep check_valid store s HSave = (s1, EvSaved (mangle (h_obj s)))
+        /\ h_obj s1 = h_obj s /\ h_raw s1 = mangle (h_obj s)
+        /\ hstep check_valid store s1 HLoad = (s2, EvLoaded (Ok (h_obj s)))
+        /\ h_obj s2 = h_obj s /\ h_raw s2 = mangle (h_obj s).
+Proof. exact history_step. Qed.
+
+Example C09_history_step_partial_nonvacuous :
+  (* encoded once, then edited (a key dropped), then saved and loaded: the file holds the edited content *)
+  snd (hrun sample_check sample_store {| h_obj := sample; h_raw := []; h_file := None |}
+            [HTouch; HSave; HEdit (JObj [([98]%N, JBool false)]); HSave; HLoad])
+  = [EvNone; EvSaved (print sample); EvNone; EvSaved (print (JObj [([98]%N, JBool false)]));
+     EvLoaded (Ok (JObj [([98]%N, JBool false)]))].
+Proof. vm_compute. reflexivity. Qed.
+
+Theorem C09_history_cache_irrelevant_partial :
+  forall (check_valid : jv -> res unit) (store : str -> option str) ops s raw',
+    snd (hrun check_valid store s ops)
+    = snd (hrun check_valid store {| h_obj := h_obj s; h_raw := raw'; h_file := h_file s |} ops)
+    /\ h_obj (fst (hrun check_valid store s ops))
+       = h_obj (fst (hrun check_valid store {| h_obj := h_obj s; h_raw := raw'; h_file := h_file s |} ops))
+    /\ h_file (fst (hrun check_valid store s ops))
+       = h_file (fst (hrun check_valid store {| h_obj := h_obj s; h_raw := raw'; h_file := h_file s |} ops)).
+Proof. intros cv st ops s raw'. exact (history_cache_irrelevant cv st ops s raw'). Qed.
+
+Example C09_history_cache_irrelevant_partial_nonvacuous :
+  snd (hrun sample_check sample_store {| h_obj := sample; h_raw := [1; 2; 3]%N; h_file := None |} [HSave; HLoad])
+  = [EvSaved (print sample); EvLoaded (Ok sample)].
+Proof. vm_compute. reflexivity. Qed.
